@@ -405,11 +405,6 @@ struct ModelRun
         }
         else
         {
-            if (s < nl)
-                x.fail(step, "C02", "size_ge_live", "size()=" + std::to_string(s) + " < live keys " + std::to_string(nl));
-            if (s > nl + M.Z.size())
-                x.fail(step, "C02", "size_le_live_plus_expired",
-                       "size()=" + std::to_string(s) + " > live " + std::to_string(nl) + " + expired-not-removed " + std::to_string(M.Z.size()));
             if (M.utx() && after_call)
             {
                 // C17: the purge at the start of the call removed everything that was expired then
@@ -427,6 +422,11 @@ struct ModelRun
                                "F8 size()=" + std::to_string(s) + " live=" + std::to_string(nl) + " (entry expired at its own write instant is counted)");
                 }
             }
+            if (s < nl)
+                x.fail(step, "C02", "size_ge_live", "size()=" + std::to_string(s) + " < live keys " + std::to_string(nl));
+            if (s > nl + M.Z.size())
+                x.fail(step, "C02", "size_le_live_plus_expired",
+                       "size()=" + std::to_string(s) + " > live " + std::to_string(nl) + " + expired-not-removed " + std::to_string(M.Z.size()));
             if (s == nl)
                 M.Z.clear();
             if (s > nl)
